@@ -8,6 +8,7 @@ import Driver.Util
      case <id>
      w <tid> crc <iters> <hex>
      w <tid> <kind> <iters> <seed> alone=<digest>      digest of the workload run alone in its own process
+     reg <eth|ip> <id>                                  user allocator registered before the threads start
      go <yseed> <reps>
    model mode: the registered workloads become threads of the abstract machine over the libtins cells (each thread
    loads the statics it may read and its own cell, stores its result to its own cell); `go` runs the machine under
@@ -23,6 +24,14 @@ structure MState where
 
 def kvOf (ws : List String) (key : String) : Option String :=
   ws.findSome? (fun w => if w.startsWith (key ++ "=") then some ((w.drop (key.length + 1)).toString) else none)
+
+/-- decimal or 0x-prefixed hexadecimal literal -/
+def parseNumLit (s : String) : Option Nat :=
+  if s.startsWith "0x" then
+    (s.drop 2).toString.toList.foldl (fun acc c => acc.bind (fun a =>
+      if c.isDigit then some (a * 16 + (c.toNat - '0'.toNat))
+      else if 'a' ≤ c ∧ c ≤ 'f' then some (a * 16 + 10 + (c.toNat - 'a'.toNat)) else none)) (some 0)
+  else s.toNat?
 
 /-- thread `i` of the machine: one action that loads every static and its own cell and stores the index of its
     result; local state = (pc, result index) -/
@@ -60,6 +69,12 @@ def runModel (alone : List String) (yseed : Nat) : List String × Nat :=
 def step (st : MState) (line : String) : MState × String :=
   match words line with
   | "case" :: _ => ({ alone := [] }, "case")
+  | "reg" :: fam :: id :: _ =>
+    -- registration before the threads exist: a write to the registry cells ordered before every thread's first action
+    -- (thread creation); the model threads only load the statics, so the machine's verdict does not change
+    match parseNumLit id with
+    | some n => (st, s!"reg {fam} {n}")
+    | none => (st, "bad-op")
   | "w" :: tid :: "crc" :: _iters :: h :: _ =>
     match parseHex h with
     | some d => let dg := toString (crc32 d).toNat
@@ -85,6 +100,13 @@ def specStep (st : MState) (line : String) : MState × String :=
     let ow := words out
     match words op with
     | "case" :: _ => ({ alone := [] }, "ok")
+    | "reg" :: fam :: id :: _ =>
+      -- the statement excludes registering WHILE threads run, not before: a registration after the first workload of
+      -- the case would be outside the property's hypothesis
+      if !st.alone.isEmpty then (st, "unspecified")
+      else match parseNumLit id with
+        | some n => (st, if out.trimAscii.toString == s!"reg {fam} {n}" then "ok" else "violates unparsable-output")
+        | none => (st, "unspecified")
     | "w" :: _tid :: kind :: _iters :: arg :: rest =>
       let expected : Option String :=
         if kind == "crc" then (parseHex arg).map (fun d => toString (crc32Spec d).toNat) else kvOf rest "alone"
